@@ -513,116 +513,13 @@ func checkMinMax(p *Prog, l *Ledger, name, tag string, callFn *ssa.Function, m *
 	if tag == "max" {
 		wantOp = token.GTR
 	}
-	var acc *ssa.Phi
-	instrsOf(callFn, func(in ssa.Instruction) {
-		ph, ok := in.(*ssa.Phi)
-		if !ok || !strings.HasPrefix(ph.Block().Comment, "rangeindex.loop") {
-			return
-		}
-		if b, ok := ph.Type().Underlying().(*types.Basic); ok && b.Kind() == types.Float64 {
-			acc = ph
-		}
-	})
-	if acc == nil {
-		l.Violate(rule, name, p.Pos(callFn.Pos()), "no float accumulator carried by a range loop found: the least/greatest element is not computed by the reference fold")
+	fi, whyNot := findFold(p, callFn)
+	if fi == nil {
+		l.Violate(rule, name, p.Pos(callFn.Pos()), whyNot)
 		return
 	}
-	var problems []string
-	toNumberOf := func(v ssa.Value) ssa.Value { // v = Extract(toNumber(x), 0) → x
-		ex, ok := v.(*ssa.Extract)
-		if !ok || ex.Index != 0 {
-			return nil
-		}
-		c, ok := ex.Tuple.(*ssa.Call)
-		if !ok || c.Call.StaticCallee() == nil || fnName(c.Call.StaticCallee()) != "toNumber" {
-			return nil
-		}
-		return c.Call.Args[0]
-	}
-	head := acc.Block()
-	loop := naturalLoop(head)
-	sawInit, sawUpdate := false, false
-	var ranged ssa.Value
-	for i, e := range acc.Edges {
-		pred := head.Preds[i]
-		if !loop[pred] {
-			// initial value: toNumber(args[0])
-			src := toNumberOf(e)
-			if src == nil {
-				problems = append(problems, "accumulator initialised with "+describe(e)+" instead of toNumber(element 0)")
-				continue
-			}
-			d := describe(src)
-			if !strings.HasSuffix(d, "[0]") {
-				problems = append(problems, "accumulator initialised from "+d+", not from element 0")
-			}
-			sawInit = true
-			continue
-		}
-		// in-loop edges: acc itself, the element x (edge guarded by the comparison), or a φ(acc, x) of those
-		guardedUpdate := func(x ssa.Value, pb *ssa.BasicBlock) {
-			src := toNumberOf(x)
-			if src == nil {
-				problems = append(problems, "accumulator updated with "+describe(x))
-				return
-			}
-			guarded := false
-			for _, g := range GuardsAt(pb) {
-				bo, ok := g.Cond.(*ssa.BinOp)
-				if !ok || !g.Truth {
-					continue
-				}
-				if bo.Op == wantOp && bo.X == x && bo.Y == ssa.Value(acc) {
-					guarded = true
-				}
-				flip := map[token.Token]token.Token{token.LSS: token.GTR, token.GTR: token.LSS}
-				if bo.Op == flip[wantOp] && bo.Y == x && bo.X == ssa.Value(acc) {
-					guarded = true
-				}
-			}
-			if !guarded {
-				problems = append(problems, fmt.Sprintf("accumulator takes the element without the guard 'element %s accumulator'", wantOp))
-			} else {
-				sawUpdate = true
-			}
-			if r := describe(src); !strings.Contains(r, "[") {
-				problems = append(problems, "update element "+r+" is not a range element")
-			}
-		}
-		var check func(v ssa.Value, pb *ssa.BasicBlock, depth int)
-		check = func(v ssa.Value, pb *ssa.BasicBlock, depth int) {
-			if v == ssa.Value(acc) || depth > 3 {
-				return
-			}
-			if ph, ok := v.(*ssa.Phi); ok {
-				for j, e2 := range ph.Edges {
-					check(e2, ph.Block().Preds[j], depth+1)
-				}
-				return
-			}
-			guardedUpdate(v, pb)
-		}
-		check(e, pred, 0)
-	}
-	// the loop ranges over args[1:]
-	if iff, ok := head.Instrs[len(head.Instrs)-1].(*ssa.If); ok {
-		if bo, ok := iff.Cond.(*ssa.BinOp); ok {
-			if la := lenArg(bo.Y); la != nil {
-				ranged = la
-			}
-		}
-	}
-	if sl, ok := ranged.(*ssa.Slice); !ok || sl.Low == nil || sl.High != nil {
-		problems = append(problems, "the fold does not range over the elements after the first (args[1:])")
-	} else if k, ok := constInt(sl.Low); !ok || k != 1 {
-		problems = append(problems, "the fold starts at an element other than 1")
-	}
-	if !sawInit {
-		problems = append(problems, "no initialisation from element 0")
-	}
-	if !sawUpdate {
-		problems = append(problems, "no guarded update of the accumulator")
-	}
+	acc := fi.acc
+	problems := checkFoldPaths(p, fi, wantOp)
 	// result is the accumulator; empty inputs are errors (event graph)
 	okRet := false
 	for _, e := range m.G.Events("return") {
@@ -633,7 +530,7 @@ func checkMinMax(p *Prog, l *Ledger, name, tag string, callFn *ssa.Function, m *
 	if !okRet {
 		problems = append(problems, "no success return")
 	}
-	instrsOf(callFn, func(in ssa.Instruction) {
+	instrsOf(fi.fn, func(in ssa.Instruction) {
 		if r, ok := in.(*ssa.Return); ok && len(r.Results) == 2 && isNilConst(r.Results[1]) {
 			v := r.Results[0]
 			if mi, ok := v.(*ssa.MakeInterface); ok {
@@ -662,7 +559,7 @@ func checkMinMax(p *Prog, l *Ledger, name, tag string, callFn *ssa.Function, m *
 	}
 	problems = uniqStrings(sortStrings(problems))
 	if len(problems) == 0 {
-		l.Discharge(rule, name, p.Pos(callFn.Pos()), "fold: acc := toNumber(x0); for x in rest: if x "+wantOp.String()+" acc { acc = x }; return acc; empty input rejected before and after flattening", true)
+		l.Discharge(rule, name, p.Pos(callFn.Pos()), "fold (in "+p.FuncKey(fi.fn)+"): every way round the loop keeps the accumulator only after finding 'element "+wantOp.String()+" accumulator' false and replaces it only after finding it true or on the first element; return acc; empty input rejected before and after flattening", true)
 	} else {
 		l.Violate(rule, name, p.Pos(callFn.Pos()), strings.Join(problems, " || "))
 	}
